@@ -203,6 +203,8 @@ PROPS["C20"] = {
          "quick": {"checks": 1500, "shards": 2}, "thorough": {"checks": 20000, "shards": 8}},
         {"name": "capacity-concurrent", "mode": "plain", "test": "TestC20CapacityConcurrent",
          "quick": {"checks": 1000, "shards": 4}, "thorough": {"checks": 30000, "shards": 8}},
+        {"name": "http-breaker", "mode": "plain", "test": "TestC20HTTPBreaker",
+         "quick": {"checks": 1500, "shards": 2}, "thorough": {"checks": 30000, "shards": 8}},
         {"name": "breaker", "mode": "faketime", "test": "TestC20Breaker",
          "quick": {"checks": 3000, "shards": 2}, "thorough": {"checks": 50000, "shards": 8}},
         {"name": "throttle", "mode": "faketime", "test": "TestC20Throttle",
@@ -649,3 +651,6 @@ PROPS["C15"]["rule"] += " A third part (crolt-glue) covers the persistent servic
 PROPS["C12"]["rule"] += " Every event's result (the work) is encoded as JSON by the client, as the service does before it answers."
 PROPS["C20"]["rule"] += " A fourth part (capacity-concurrent): 2-8 clients add 1-3 facts or rules each, with distinct ids, to one location with MaxFacts 1..6 and 0..max facts stored beforehand, at the same time (spin delays, schedule noise at the lock boundaries); afterwards the location holds <= max items, no more adds succeeded than there was room for (and not fewer, when enough were attempted), every acknowledged item is there and no refused one is; non-trivial = more adds than room."
 PROPS["C17"]["rule"] += " A fourth part (wipe-under-load): 1-3 requests that run a script which sleeps 2-20 ms and then writes a fact, 0-3 clients that write three facts each, and one DeleteLocation or ClearLocation issued 0-6 ms into the burst, all on one location (TTL forever, 1 h or 1 ms; schedule noise); a write that started after the wipe had returned - also one made by a script whose request began before the wipe - must be acknowledged, readable by its writer at once and still there at the end; non-trivial = at least one such write."
+PROPS["C20"]["rule"] += " A fifth part (http-breaker) drives the breaker where rulio uses it, in core.HTTPRequest.Do: a breaker (limit 1..5 per minute) registered for a host, 1-3 bursts of 2-16 concurrent requests to that host through an in-process transport that counts what goes out (no network); at most `limit` requests go out, exactly min(total, limit) do, the others are answered 430; non-trivial = more requests than the limit."
+PROPS["C15"]["rule"] += " One schedule in eight of the sys.System part lies wholly in the past (1 January 2001 on the virtual clock): the rule is refused (and then nothing changes - a rule of that id that was there keeps running) or it exists and never runs."
+PROPS["C12"]["rule"] += " Facts carry a second property with one of two values, and `searchKind` requests search for one of them (a search by value meets what overwritten facts left in the term index)."
